@@ -17,11 +17,12 @@ looks at the beam position). Nothing reads the log back.
 * `zx_hom`: the projection `IoZX.zx` is a bus homomorphism, so by Lemmas/Z80Hom.lean every program goes
   through the same CPU states on `IoZX` as on `ZX` and the `zx` component of a run *is* the run on `ZX`.
 * `prefix_hom`: prepending an earlier history commutes with every primitive — the log of a run does not
-  depend on what was logged before.
+  depend on what was logged before; `older_hom`: nor on the machine's own ghost histories (`tlog`, `wlog`).
 * `toHist_hom`: forgetting everything but the AY port writes gives the ghost history of Lemmas/AyBus.lean,
   so the C18 system theorems speak about the same history.
-* `ext_closed`: the invariant `Ext` (what every entry says about the access it records; the device
-  latches of the machine are the fold of the log; under the representation invariant of C04 the paging
+* `grows_closed`: the invariant `Ext` (what every entry says about the access it records; the device
+  latches of the machine are the fold of the log; AY reads saw the fold of the entries in front of them;
+  under the representation invariant of C04 the paging
   latch is the fold of the accepted paging writes and every time stamp is the property's time) is closed
   under every primitive of the bus, hence (Lemmas/Z80Closed.lean) kept by every program.
 -/
@@ -259,6 +260,23 @@ def PagState.step (s : PagState) : IoEntry → PagState
   | .wr _ v .paging _ _ _ => if s.locked then s else ⟨v, v &&& 0x20 ≠ 0⟩
   | _ => s
 
+/-- every `IN` routed to the AY returned the register that the earlier writes of the log had selected,
+with the contents they had given it: `d` is the device state before the first entry -/
+def ReadsSee : DevState → List IoEntry → Prop
+  | _, [] => True
+  | d, e :: t =>
+    (match e with
+     | .rd _ val .ay _ _ _ _ => val = d.ayRegs d.ayReg
+     | _ => True) ∧ ReadsSee (d.step e) t
+
+theorem readsSee_append (d : DevState) (l1 l2 : List IoEntry) :
+    ReadsSee d (l1 ++ l2) ↔ ReadsSee d l1 ∧ ReadsSee (l1.foldl DevState.step d) l2 := by
+  induction l1 generalizing d with
+  | nil => simp [ReadsSee]
+  | cons e t ih =>
+    simp only [List.cons_append, ReadsSee, List.foldl_cons, ih]
+    exact and_assoc.symm
+
 /-- What an entry says by itself, on a machine of kind `k` whose input state is `kbd`, `earIn` (none of
 which a program can change): the device is the one the decode chain selects for that port in that
 configuration; a value that came from an input device is that device's; a value that came from the
@@ -362,6 +380,7 @@ structure Ext (x y : IoZX) (d : List IoEntry) : Prop where
   kind : y.zx.ctl.kind = x.zx.ctl.kind
   recd : ∀ e ∈ d, Recorded x.zx.ctl.kind x.zx.kbd x.zx.earIn e
   dev : devState y.zx = d.foldl DevState.step (devState x.zx)
+  sees : ReadsSee (devState x.zx) d
   good : C04Sys.Good x.zx.ctl →
     C04Sys.Good y.zx.ctl ∧ pagState y.zx = d.foldl PagState.step (pagState x.zx) ∧
     ∀ e ∈ d, Stamped x.zx.ctl.kind e
@@ -375,6 +394,7 @@ theorem Ext.refl (x : IoZX) : Ext x x [] where
   kind := rfl
   recd := by intro e he; cases he
   dev := rfl
+  sees := trivial
   good g := ⟨g, rfl, by intro e he; cases he⟩
 
 theorem Ext.trans {a b c : IoZX} {d1 d2 : List IoEntry} (h1 : Ext a b d1) (h2 : Ext b c d2) :
@@ -391,6 +411,7 @@ theorem Ext.trans {a b c : IoZX} {d1 d2 : List IoEntry} (h1 : Ext a b d1) (h2 : 
       rw [h1.kbd, h1.earIn, h1.kind] at this
       exact this
   dev := by rw [List.foldl_append, ← h1.dev, ← h2.dev]
+  sees := (readsSee_append _ _ _).mpr ⟨h1.sees, by rw [← h1.dev]; exact h2.sees⟩
   good g := by
     obtain ⟨g1, p1, s1⟩ := h1.good g
     obtain ⟨g2, p2, s2⟩ := h2.good g1
@@ -413,6 +434,7 @@ theorem Ext.quiet {x y : IoZX} (hl : y.log = x.log) (hk : y.zx.kbd = x.zx.kbd) (
   kind := hf.1
   recd := by intro e h; cases h
   dev := hd
+  sees := trivial
   good g := by
     obtain ⟨_, _, h⟩ := ht
     refine ⟨(h g).1, ?_, by intro e h; cases h⟩
@@ -492,6 +514,15 @@ theorem Ext.read (x : IoZX) (p : BitVec 16) : Ext x (Bus.readIo p x).2 [readEntr
     rw [List.mem_singleton.mp he]
     exact readEntry_recorded x.zx p
   dev := rfl
+  sees := by
+    refine ⟨?_, trivial⟩
+    show (match readEntry x.zx p with
+      | .rd _ val .ay _ _ _ _ => val = (devState x.zx).ayRegs (devState x.zx).ayReg
+      | _ => True)
+    unfold readEntry
+    cases hd : readDecode x.zx.cfg p <;> simp only []
+    show (ZX.readIo p x.zx).1 = x.zx.ayRegs x.zx.ayReg
+    simp only [ZX.readIo, hd]
   good g := by
     obtain ⟨_, _, h⟩ := C04Sys.timed_closed.readIo p x.zx
     refine ⟨(h g).1, ?_, ?_⟩
@@ -514,6 +545,7 @@ theorem Ext.write (x : IoZX) (p : BitVec 16) (v : BitVec 8) :
     rw [List.mem_singleton.mp he]
     exact writeEntry_recorded x.zx p v
   dev := writeIo_dev p v x.zx
+  sees := ⟨trivial, trivial⟩
   good g := by
     obtain ⟨_, _, h⟩ := C04Sys.timed_closed.writeIo p v x.zx
     refine ⟨(h g).1, writeIo_pag p v x.zx g, ?_⟩
